@@ -69,7 +69,7 @@ class MayRaise:
             if self.ignore_calls is not None and self.ignore_calls(ct):
                 return out
             for callee in ct.funcs:
-                if callee.is_async and not _is_awaited(node, fn):
+                if callee.is_async:
                     continue  # creating a coroutine object raises nothing; the await does (see below)
                 for exc in self.summary.get(callee.qualname, {}):
                     out.setdefault(exc, (fn, node, callee))
